@@ -153,6 +153,9 @@ pub enum Op {
     FRetain { p: Pred, fuse: usize },
     /// `entry(k)`, and if occupied `replace_entry_with` with a closure that panics (caught)
     FReplace { k: u64 },
+    /// an entry call whose closure panics as soon as it is called (caught): kind 0 `entry(k).or_insert_with`,
+    /// 1 `entry(k).and_modify`, 2 raw `or_insert_with`, 3 `entry(k).or_insert_with_key`, 4 raw `and_modify`
+    FEntry { k: u64, kind: u8 },
     /// `drain_filter` pulled to the end, its closure panicking on entering its `fuse`-th call (caught)
     FDrainFilter { p: Pred, fuse: usize },
     Drop,
@@ -206,6 +209,7 @@ pub fn fmt_op(mid: usize, op: &Op) -> String {
         Op::FInsert { k, v, fuse } => format!("finsert {mid} {k} {v} {fuse}"),
         Op::FRetain { p, fuse } => format!("fretain {mid} {} {fuse}", p.fmt()),
         Op::FReplace { k } => format!("freplace {mid} {k}"),
+        Op::FEntry { k, kind } => format!("fentry {mid} {k} {kind}"),
         Op::FDrainFilter { p, fuse } => format!("fdrainfilter {mid} {} {fuse}", p.fmt()),
         Op::Drop => format!("drop {mid}"),
     }
@@ -261,6 +265,7 @@ pub fn parse_op(line: &str) -> Option<Line> {
         "finsert" => Op::FInsert { k: u(2)?, v: u(3)?, fuse: z(4)? },
         "fretain" => Op::FRetain { p: Pred::parse(t.get(2)?)?, fuse: z(3)? },
         "freplace" => Op::FReplace { k: u(2)? },
+        "fentry" => Op::FEntry { k: u(2)?, kind: u(3)? as u8 },
         "fdrainfilter" => Op::FDrainFilter { p: Pred::parse(t.get(2)?)?, fuse: z(3)? },
         "drop" => Op::Drop,
         _ => return None,
@@ -1396,6 +1401,40 @@ impl World {
                     self.fail(&["C07"], format!("replace_entry_with on key {k} (present = {was}): closure {}", if was { "was not called" } else { "was called" }));
                 }
             }
+            Op::FEntry { k, kind } => {
+                loc_class = class_of(self, *k);
+                let raw = *kind == 2 || *kind == 4;
+                let inserting = matches!(*kind, 0 | 2 | 3);
+                let key = if raw { None } else { Some(Key::new(*k)) };
+                let kid = key.as_ref().map_or(0, |x| x.id);
+                head = format!("fentry {mid} {k} {kid} {} {}", raw as u8, inserting as u8);
+                let m = self.maps[mid].as_mut().unwrap();
+                let (k, kind) = (*k, *kind);
+                let cr = windowed(|| match kind {
+                    0 => {
+                        m.entry(key.unwrap()).or_insert_with(|| -> Val { panic!("injected (closure)") });
+                    }
+                    1 => {
+                        let _ = m.entry(key.unwrap()).and_modify(|_| panic!("injected (closure)"));
+                    }
+                    2 => {
+                        m.raw_entry_mut().from_key(&Q(k)).or_insert_with(|| -> (Key, Val) { panic!("injected (closure)") });
+                    }
+                    3 => {
+                        m.entry(key.unwrap()).or_insert_with_key(|_| -> Val { panic!("injected (closure)") });
+                    }
+                    _ => {
+                        let _ = m.raw_entry_mut().from_key(&Q(k)).and_modify(|_, _| panic!("injected (closure)"));
+                    }
+                });
+                survives = true;
+                let _ = take_cr!(cr);
+                let was = self.refs[mid].as_ref().unwrap().contains_key(&k);
+                let expect_fired = if inserting { !was } else { was };
+                if expect_fired != panic_kind.is_some() {
+                    self.fail(&["C07", "C12"], format!("entry call kind {kind} on key {k} (present = {was}): closure {}", if expect_fired { "was not called" } else { "was called" }));
+                }
+            }
             Op::FDrainFilter { p, fuse } => {
                 let mut calls: Vec<u64> = vec![];
                 let m = self.maps[mid].as_mut().unwrap();
@@ -1566,7 +1605,7 @@ impl World {
                     Op::Clone { .. } | Op::CloneFrom { .. } => &["C11"],
                     Op::Eq { .. } | Op::Get { .. } => &["C14"],
                     Op::Drop | Op::Clear => &["C06"],
-                    Op::FInsert { .. } | Op::FRetain { .. } | Op::FReplace { .. } | Op::FDrainFilter { .. } => &["C07"],
+                    Op::FInsert { .. } | Op::FRetain { .. } | Op::FReplace { .. } | Op::FEntry { .. } | Op::FDrainFilter { .. } => &["C07"],
                     Op::FillProbe { .. } => &["C04"],
                     Op::Insert { .. } | Op::Extend { .. } | Op::GetMut { .. } | Op::Remove { .. } => &["C02", "C03"],
                     _ => &[],
